@@ -281,21 +281,15 @@ impl Rec {
         Rec { calls: 0, off: [0; NC], len: [0; NC], toff: [0; NC], tid: [0; NC], sid: [0; NC], flen: [0; NC], flags: [0; NC], rsv: [0; NC],
               b0: [0; NC], ctr: [0; NC], same_buf: true, init_tid_ok: true }
     }
-    /// offset, length, header offset / frame length, visible position and buffer only (symbolic-layout regime: every
-    /// extra read of the log is an array-theory index; the other header fields are decided in regime R1)
-    fn note_lite(&mut self, term: &AtomicBuffer, ctr: &AtomicBuffer, b: &AtomicBuffer, off: Index, len: Index, h: &Header) {
-        let k = self.calls;
-        if k < NC {
-            self.off[k] = off;
-            self.len[k] = len;
-            self.toff[k] = h.term_offset();
-            self.flen[k] = h.frame_length();
-            self.ctr[k] = ctr.get::<i64>(0);
-        }
-        self.same_buf = self.same_buf && b.buffer() == term.buffer() && b.capacity() == T;
-        self.calls += 1;
-    }
+    /// R1 regime (term length T)
     fn note(&mut self, term: &AtomicBuffer, ctr: &AtomicBuffer, init_tid: i32, b: &AtomicBuffer, off: Index, len: Index, h: &Header) {
+        self.note_t(T, term, ctr, init_tid, b, off, len, h)
+    }
+    /// R2 regime (term length ST)
+    fn note_sym(&mut self, term: &AtomicBuffer, ctr: &AtomicBuffer, init_tid: i32, b: &AtomicBuffer, off: Index, len: Index, h: &Header) {
+        self.note_t(ST, term, ctr, init_tid, b, off, len, h)
+    }
+    fn note_t(&mut self, tl: i32, term: &AtomicBuffer, ctr: &AtomicBuffer, init_tid: i32, b: &AtomicBuffer, off: Index, len: Index, h: &Header) {
         let k = self.calls;
         if k < NC {
             self.off[k] = off;
@@ -306,10 +300,10 @@ impl Rec {
             self.flen[k] = h.frame_length();
             self.flags[k] = h.flags();
             self.rsv[k] = h.reserved_value();
-            self.b0[k] = if len > 0 && off >= 0 && off < T { b.get::<u8>(off) } else { 0 };
+            self.b0[k] = if len > 0 && off >= 0 && off < tl { b.get::<u8>(off) } else { 0 };
             self.ctr[k] = ctr.get::<i64>(0);
         }
-        self.same_buf = self.same_buf && b.buffer() == term.buffer() && b.capacity() == T && h.buffer().buffer() == term.buffer();
+        self.same_buf = self.same_buf && b.buffer() == term.buffer() && b.capacity() == tl && h.buffer().buffer() == term.buffer();
         self.init_tid_ok = self.init_tid_ok && h.initial_term_id() == init_tid;
         self.calls += 1;
     }
@@ -961,7 +955,13 @@ fn run_twin(inst: Inst) -> Out {
 // predicate `wf` of DESIGN 3.2 is assumed on the memory by decoding it with the harness' own byte reader. The cost
 // moves from symex to the solver (minutes per harness): thorough tier.
 
-fn rd_i32(m: &[u8; LOG], at: usize) -> i32 {
+/// Term length and object size of the R2 harnesses: 3 terms of 128 bytes + the first 272 bytes of the meta data section
+/// (all the Image reads of it; `LogBuffers::new` is told the regular 4096, any access beyond the 272 is a CBMC pointer
+/// failure). 656 bytes keeps the object below CBMC's 1000-element limit for flattened (non array-theory) arrays.
+const ST: i32 = 128;
+const SLOG: usize = 3 * 128 + 272;
+
+fn rd_i32(m: &[u8; SLOG], at: usize) -> i32 {
     i32::from_le_bytes([m[at], m[at + 1], m[at + 2], m[at + 3]])
 }
 
@@ -974,40 +974,43 @@ struct SymTable {
     flags: [u8; NF],
     sid: [i32; NF],
     tid: [i32; NF],
+    rsv: [i64; NF],
+    b0: [u8; NF],
 }
 
-fn sym_table(m: &[u8; LOG], base: usize, start: i32, want_flags: bool, want_tid: bool) -> SymTable {
-    let mut t = SymTable { n: 0, off: [start; NF + 1], len: [0; NF], pad: [false; NF], flags: [0; NF], sid: [0; NF], tid: [0; NF] };
+fn sym_table(m: &[u8; SLOG], base: usize, start: i32, maxf: usize) -> SymTable {
+    let mut t = SymTable { n: 0, off: [start; NF + 1], len: [0; NF], pad: [false; NF], flags: [0; NF], sid: [0; NF], tid: [0; NF], rsv: [0; NF], b0: [0; NF] };
     let mut off = start;
     let mut open = true;
     let mut i = 0;
     while i < NF {
-        if open && off < T {
-            let at = base + off as usize;
-            let w = rd_i32(m, at);
-            if w > 0 {
-                kani::assume(w >= 32 && off as i64 + align32(w as i64) <= T as i64); // wf: frame lies inside the term
-                t.len[i] = w;
-                if want_flags {
+        if i < maxf {
+            if open && off < ST {
+                let at = base + off as usize;
+                let w = rd_i32(m, at);
+                if w > 0 {
+                    kani::assume(w >= 32 && off as i64 + align32(w as i64) <= ST as i64); // wf: frame lies inside the term
+                    t.len[i] = w;
                     t.flags[i] = m[at + 5];
-                }
-                t.pad[i] = m[at + 6] == 0 && m[at + 7] == 0;
-                if i == 0 && want_tid {
+                    t.pad[i] = m[at + 6] == 0 && m[at + 7] == 0;
+                    t.sid[i] = rd_i32(m, at + 12);
                     t.tid[i] = rd_i32(m, at + 20);
+                    t.rsv[i] = ((rd_i32(m, at + 28) as i64) << 32) | (rd_i32(m, at + 24) as u32 as i64);
+                    t.b0[i] = if w > 32 { m[at + 32] } else { 0 };
+                    off += align32(w as i64) as i32;
+                    t.n = i + 1;
+                } else {
+                    open = false;
                 }
-                off += align32(w as i64) as i32;
-                t.n = i + 1;
             } else {
                 open = false;
             }
-        } else {
-            open = false;
         }
         t.off[i + 1] = off;
         i += 1;
     }
-    if open && off < T {
-        kani::assume(rd_i32(m, base + off as usize) <= 0); // bound of these harnesses: at most NF committed frames ahead
+    if open && off < ST {
+        kani::assume(rd_i32(m, base + off as usize) <= 0); // bound of these harnesses: at most maxf committed frames ahead
     }
     t
 }
@@ -1036,7 +1039,7 @@ fn sym_walk(t: &SymTable, term_begin: i64, from: usize, fragment_limit: i32, bou
             e.out.lim = i < t.n && e.counted > 0;
             break;
         }
-        if pos >= term_begin + T as i64 {
+        if pos >= term_begin + ST as i64 {
             break;
         }
         if let Some(b) = bound {
@@ -1089,40 +1092,41 @@ fn sym_walk(t: &SymTable, term_begin: i64, from: usize, fragment_limit: i32, bou
     }
     e.end_pos = if peek { result } else { pos };
     e.out.lag = result < pos;
-    e.out.all = i == t.n && t.n == NF;
-    e.out.end = e.end_pos == term_begin + T as i64;
+    e.out.all = i == t.n && t.n > 0;
+    e.out.end = e.end_pos == term_begin + ST as i64;
     e
 }
 
-fn sym_run(v: Variant) -> Out {
+fn sym_run(v: Variant, maxf: usize) -> Out {
     pretouch();
-    let mut log = Mem::<LOG>::any();
+    let mut log = Mem::<SLOG>::any();
     let mut ctr = Mem::<64>::zeroed();
     let tc: i64 = kani::any();
     let slot: i32 = kani::any();
-    kani::assume(tc >= 0 && tc <= i32::MAX as i64 && slot >= 0 && slot < 8);
+    kani::assume(tc >= 0 && tc <= i32::MAX as i64 && slot >= 0 && slot < ST / 32);
     let start = slot * 32;
-    let term_begin = tc * T as i64;
+    let term_begin = tc * ST as i64;
     let pos0 = term_begin + start as i64;
-    let base = ((tc % 3) * T as i64) as usize;
-    let t = sym_table(&log.0, base, start, v == Variant::Peek, v == Variant::Block);
+    let base = ((tc % 3) * ST as i64) as usize;
+    let t = sym_table(&log.0, base, start, maxf);
+    let init_tid = rd_i32(&log.0, 3 * ST as usize + *lbd::LOG_INITIAL_TERM_ID_OFFSET as usize);
     let p0 = pos0.to_le_bytes();
     let mut i = 0;
     while i < 8 {
         ctr.0[i] = p0[i];
         i += 1;
     }
-    let lb = unsafe { LogBuffers::new(log.0.as_mut_ptr(), LOG as isize, T) };
+    let lb = unsafe { LogBuffers::new(log.0.as_mut_ptr(), 3 * ST as isize + 4096, ST) };
     let cb = ctr.buf();
     let sp = UnsafeBufferPosition::new(cb, 0);
     let session: i32 = kani::any();
     let mut image = Image::create(session, 7, 9, unsafe { CString::from_vec_unchecked(Vec::new()) }, &sp, Arc::new(lb), Box::new(err_handler as fn(AeronError)));
-    let term = AtomicBuffer::new(unsafe { log.0.as_mut_ptr().add(base) }, T);
+    let term = AtomicBuffer::new(unsafe { log.0.as_mut_ptr().add(base) }, ST);
 
     if v == Variant::Block {
         let limit: i32 = kani::any();
-        // reference (Aeron block scanner): whole frames below min(start + limit, T); padding ends the block, alone if first
-        let lim = core::cmp::min(start as i64 + limit as i64, T as i64);
+        // reference (Aeron block scanner): whole frames below min(start + limit, ST); padding ends the block, alone if first
+        let lim = core::cmp::min(start as i64 + limit as i64, ST as i64);
         let mut end = start as i64;
         let mut k = 0;
         while k < NF {
@@ -1149,7 +1153,7 @@ fn sym_run(v: Variant) -> Out {
         assert!(got as i64 == exp_len, "C05: block_poll returns the length of the block of whole committed frames within the block length limit");
         unsafe {
             if exp_len > 0 {
-                assert!(BLK.calls == 1 && BLK.ptr == term.buffer() as usize && BLK.cap == T && BLK.off == start && BLK.len as i64 == exp_len,
+                assert!(BLK.calls == 1 && BLK.ptr == term.buffer() as usize && BLK.cap == ST && BLK.off == start && BLK.len as i64 == exp_len,
                     "C05: block_poll hands over exactly one block [subscriber offset, offset + length) of the active term buffer");
                 assert!(BLK.session == session && BLK.term_id == t.tid[0], "C05: block carries the image's session id and the term id of its first frame");
                 assert!(exp_len <= limit as i64 || t.pad[0], "C05: block longer than the block length limit");
@@ -1159,13 +1163,13 @@ fn sym_run(v: Variant) -> Out {
         }
         let after = cb.get::<i64>(0);
         assert!(after == pos0 + exp_len, "C05: subscriber position moved by exactly the block length");
-        assert!(after <= term_begin + t.off[t.n] as i64 && after <= term_begin + T as i64, "C05: subscriber position moved past an uncommitted frame or the term end");
+        assert!(after <= term_begin + t.off[t.n] as i64 && after <= term_begin + ST as i64, "C05: subscriber position moved past an uncommitted frame or the term end");
         let mut out = Out::none();
-        out.lim = t.n == 3 && exp_len == (t.off[2] - start) as i64 && !t.pad[2] && tc > (1 << 24) && start > 0;
+        out.lim = t.n == maxf && exp_len == (t.off[maxf - 1] - start) as i64 && !t.pad[maxf - 1] && tc > (1 << 24) && start > 0;
         out.padlim = t.n >= 1 && t.pad[0] && exp_len > limit as i64 && limit > 0;
         out.unl = limit == i32::MAX && start > 0 && exp_len > 0;
-        out.unc = t.n == 2 && t.off[2] < T && exp_len == (t.off[2] - start) as i64;
-        out.end = exp_len > 0 && end == T as i64;
+        out.unc = t.n == 1 && t.off[1] < ST && exp_len == (t.off[1] - start) as i64;
+        out.end = exp_len > 0 && end == ST as i64;
         std::mem::forget(image);
         return out;
     }
@@ -1177,17 +1181,18 @@ fn sym_run(v: Variant) -> Out {
     let acts = any_actions();
     let use_acts = v == Variant::Controlled || v == Variant::BoundedControlled || peek;
     let from: usize = if peek { kani::any() } else { 0 };
-    kani::assume(from <= t.n);
+    // a peek from exactly the term end is a peek into the NEXT term (other partition, not described by the table): R1 instance `lay_b(..).from(3)`
+    kani::assume(from <= t.n && t.off[from] < ST);
     let e = sym_walk(&t, term_begin, from, limit, if use_bound { Some(bound) } else { None }, if use_acts { Some(&acts) } else { None }, peek, pos0);
 
     let mut r = Rec::new();
     let got: i64 = match v {
-        Variant::Poll => image.poll(&mut |b: &AtomicBuffer, o: Index, l: Index, h: &Header| r.note_lite(&term, &cb, b, o, l, h), limit) as i64,
-        Variant::Bounded => image.bounded_poll(|b: &AtomicBuffer, o: Index, l: Index, h: &Header| r.note_lite(&term, &cb, b, o, l, h), bound, limit) as i64,
+        Variant::Poll => image.poll(&mut |b: &AtomicBuffer, o: Index, l: Index, h: &Header| r.note_sym(&term, &cb, init_tid, b, o, l, h), limit) as i64,
+        Variant::Bounded => image.bounded_poll(|b: &AtomicBuffer, o: Index, l: Index, h: &Header| r.note_sym(&term, &cb, init_tid, b, o, l, h), bound, limit) as i64,
         Variant::Controlled => image.controlled_poll(
             |b: &AtomicBuffer, o: Index, l: Index, h: &Header| {
                 let k = r.calls;
-                r.note_lite(&term, &cb, b, o, l, h);
+                r.note_sym(&term, &cb, init_tid, b, o, l, h);
                 action(&acts, k)
             },
             limit,
@@ -1195,7 +1200,7 @@ fn sym_run(v: Variant) -> Out {
         Variant::BoundedControlled => image.bounded_controlled_poll(
             |b: &AtomicBuffer, o: Index, l: Index, h: &Header| {
                 let k = r.calls;
-                r.note_lite(&term, &cb, b, o, l, h);
+                r.note_sym(&term, &cb, init_tid, b, o, l, h);
                 action(&acts, k)
             },
             bound,
@@ -1206,7 +1211,7 @@ fn sym_run(v: Variant) -> Out {
                 term_begin + t.off[from] as i64,
                 |b: &AtomicBuffer, o: Index, l: Index, h: &Header| {
                     let k = r.calls;
-                    r.note_lite(&term, &cb, b, o, l, h);
+                    r.note_sym(&term, &cb, init_tid, b, o, l, h);
                     action(&acts, k)
                 },
                 bound,
@@ -1215,13 +1220,16 @@ fn sym_run(v: Variant) -> Out {
         ),
     };
 
+    assert!(r.init_tid_ok, "C05: header carries the image's initial term id");
     assert!(r.calls == e.calls && r.same_buf, "C05: the handler is handed exactly the committed data frames between old and new position, from the active term buffer");
     let mut k = 0;
     while k < NF {
         if k < e.calls {
             let s = e.slot[k];
             assert!(r.off[k] == t.off[s] + 32 && r.len[k] == t.len[s] - 32, "C05: fragment delivered with the wrong data offset / length");
-            assert!(r.toff[k] == t.off[s] && r.flen[k] == t.len[s], "C05: header term offset / frame length are those of the delivered frame");
+            assert!(r.toff[k] == t.off[s] && r.flen[k] == t.len[s] && r.tid[k] == t.tid[s] && r.sid[k] == t.sid[s] && r.flags[k] == t.flags[s] && r.rsv[k] == t.rsv[s],
+                "C05: header term offset / frame length / term id / session id / flags / reserved value are those of the delivered frame");
+            assert!(t.len[s] == 32 || r.b0[k] == t.b0[s], "C05: delivered payload is the frame's payload");
             assert!(r.ctr[k] == e.vis[k], "C05: position visible during a handler call is the last committed one (Commit publishes, Continue defers, peek never publishes)");
             assert!(!use_bound || term_begin + (r.off[k] as i64 - 32) < bound, "C05: fragment delivered that starts at or after the position bound");
         }
@@ -1236,12 +1244,12 @@ fn sym_run(v: Variant) -> Out {
         assert!(after == e.end_pos && image.position() == after, "C05: subscriber position moved by exactly the delivered frames plus skipped padding");
         assert!(after >= pos0 && after % 32 == 0, "C05: subscriber position moved backwards or off a frame boundary");
     }
-    assert!(e.end_pos <= term_begin + t.off[t.n] as i64 && e.end_pos <= term_begin + T as i64 && after <= term_begin + t.off[t.n] as i64,
+    assert!(e.end_pos <= term_begin + t.off[t.n] as i64 && e.end_pos <= term_begin + ST as i64 && after <= term_begin + t.off[t.n] as i64,
         "C05: position moved past an uncommitted frame or the term end");
     let mut out = e.out;
-    out.hi = t.n == 3 && e.out.pad && e.counted == 2 && tc > (1 << 24) && start > 0;
+    out.hi = t.n == maxf && e.out.pad && e.counted as usize == maxf - 1 && tc > (1 << 24) && start > 0;
     out.end = e.out.end && e.counted > 0;
-    out.unc = e.out.unc && t.off[t.n] < T;
+    out.unc = e.out.unc && t.off[t.n] < ST;
     out.bound = e.out.bound && e.counted > 0;
     out.far = use_bound && bound < pos0 - (1i64 << 32) && t.n > 0 && pos0 > (1i64 << 33);
     out.abort = e.out.abort && e.counted > 0;
@@ -1265,7 +1273,7 @@ macro_rules! must {
     ($o:ident, commit) => { kani::cover!($o.commit, "[must] Commit taken"); };
     ($o:ident, cont) => { kani::cover!($o.cont, "[must] Continue taken"); };
     ($o:ident, lag) => { kani::cover!($o.lag, "[must] peek result lags behind a fragment without END flag"); };
-    ($o:ident, hi) => { kani::cover!($o.hi, "[must] three frames with padding, term count above 2^24, mid-term start"); };
+    ($o:ident, hi) => { kani::cover!($o.hi, "[must] full table with padding in it, term count above 2^24, mid-term start"); };
     ($o:ident, far) => { kani::cover!($o.far, "[must] bound more than 2^32 behind the position"); };
     ($o:ident, unl) => { kani::cover!($o.unl, "[must] unlimited block length (i32::MAX) with a mid-term start delivers"); };
     ($o:ident, padlim) => { kani::cover!($o.padlim, "[must] leading padding handed over beyond the block length limit"); };
@@ -1342,24 +1350,24 @@ instance!(c05_twin_position_ignores_commit_state, run_twin, [lay_a([32, -33, 49]
 
 // Regime R2 (symbolic layout), one harness per variant.
 macro_rules! sym_instance {
-    ($name:ident, $v:expr $(, $c:ident)*) => {
+    ($name:ident, $v:expr, $maxf:expr $(, $c:ident)*) => {
         #[kani::proof]
         fn $name() {
-            let o = sym_run($v);
+            let o = sym_run($v, $maxf);
             $( must!(o, $c); )*
         }
     };
 }
 
-// @verif tier=thorough unwind=9 timeout=3400 mem=26
-sym_instance!(c05_sym_poll, Variant::Poll, hi, end, unc, lim);
-// @verif tier=thorough unwind=9 timeout=3400 mem=26
-sym_instance!(c05_sym_bounded_poll, Variant::Bounded, hi, end, unc, lim, bound, far);
-// @verif tier=thorough unwind=9 timeout=3400 mem=26
-sym_instance!(c05_sym_controlled_poll, Variant::Controlled, hi, end, unc, lim, abort, brk, commit);
-// @verif tier=thorough unwind=9 timeout=3400 mem=26
-sym_instance!(c05_sym_bounded_controlled_poll, Variant::BoundedControlled, hi, end, unc, lim, bound, far, abort, brk, commit);
-// @verif tier=thorough unwind=9 timeout=3400 mem=26
-sym_instance!(c05_sym_controlled_peek, Variant::Peek, hi, end, unc, bound, far, abort, brk, commit, lag);
-// @verif tier=thorough unwind=9 timeout=3400 mem=26
-sym_instance!(c05_sym_block_poll, Variant::Block, lim, padlim, unl, unc, end);
+// @verif tier=thorough unwind=5 unwindset=sym_run:9 timeout=3400 mem=26
+sym_instance!(c05_sym_poll, Variant::Poll, 3, hi, end, unc, lim);
+// @verif tier=thorough unwind=5 unwindset=sym_run:9 timeout=3400 mem=26
+sym_instance!(c05_sym_bounded_poll, Variant::Bounded, 3, hi, end, unc, lim, bound, far);
+// @verif tier=thorough unwind=5 unwindset=sym_run:9 timeout=3400 mem=26
+sym_instance!(c05_sym_controlled_poll, Variant::Controlled, 3, hi, end, unc, lim, abort, brk, commit);
+// @verif tier=thorough unwind=5 unwindset=sym_run:9 timeout=3400 mem=26
+sym_instance!(c05_sym_bounded_controlled_poll, Variant::BoundedControlled, 3, hi, end, unc, lim, bound, far, abort, brk, commit);
+// @verif tier=thorough unwind=5 unwindset=sym_run:9 timeout=3400 mem=26
+sym_instance!(c05_sym_controlled_peek, Variant::Peek, 3, hi, end, unc, bound, far, abort, brk, commit, lag);
+// @verif tier=thorough unwind=5 unwindset=sym_run:9 timeout=3400 mem=26
+sym_instance!(c05_sym_block_poll, Variant::Block, 3, lim, padlim, unl, unc, end);
